@@ -46,7 +46,7 @@ def run(tier):
     from checks import arrays
     from checks.c04 import consts as aconsts
     exe_int = arrays.build(wd, 0)
-    aops = ["ctor_ext", "ctor_iota", "ctor_copy", "ctor_move", "ctor_view", "decay", "assign_copy", "assign_move", "assign_view", "swap", "ctor_other", "assign_other",
+    aops = ["ctor_ext", "ctor_iota", "ctor_copy", "ctor_move", "ctor_view", "decay", "assign_copy", "assign_move", "assign_view", "swap", "ctor_other", "ctor_other_x", "assign_other",
             "write", "destroy", "reextent", "reextent_fill", "clear", "reshape"]
     aplan = [("c19_arr_d1", aconsts(1, 2, 3, True, aops)), ("c19_arr_d2", aconsts(2, 2, 2, True, aops))]
     if tier == "thorough":
